@@ -225,7 +225,7 @@ func (g *genCtx) block(depth int, inLoop, inBrk bool, maxStmts int, braceEnd boo
 			b.Stmts = append(b.Stmts, sCmd(g.cmd()))
 		case 4:
 			ifs := &If{}
-			na := rapid.IntRange(1, 3).Draw(t, "narms")
+			na := rapid.SampledFrom([]int{1, 1, 1, 2, 2, 2, 3, 3, 4, 5}).Draw(t, "narms") // up to four elifs
 			for a := 0; a < na; a++ {
 				ifs.Arms = append(ifs.Arms, &Arm{Cond: g.cond(), Body: g.block(depth+1, inLoop, inBrk, g.cfg.MaxStmts, true)})
 			}
